@@ -3,11 +3,24 @@
       one is killed through wamp.session.kill; the dropped id joins again;
       list; get of an attached and of an ended session.  The hypotheses of the
       session count / list / get theorems hold at each of the calls and the
-      answers are the attachment read off the trace. *)
+      answers are the attachment read off the trace.
+    - [ObsEx]: an observer (session 10, a local session with authrole
+      "trusted") subscribes to wamp.session.on_join and on_leave; in the window
+      session 11 joins, is dropped and joins again, 12 and 13 join, 13 stores
+      an (innocent) testament, 12 kills every anonymous session but itself
+      through wamp.session.kill_by_authrole (11 and 13, in one step) and says
+      GOODBYE.  The observer reads exactly the attachment changes, in order.
+      (wamp.session.kill_all would end the observer too.)
+    - [Forge]: the same observer; session 11 publishes to
+      wamp.session.on_leave itself and stores a testament with that topic, then
+      is dropped: the observer reads on_leave events for sessions 99 and 77
+      that never joined.  The router reserves neither topic. *)
 From Nexus Require Import Router.Realm Router.RealmProofs Router.RealmWf Router.RealmStep.
 From Nexus Require Import Router.DealerLib Router.DealerReply Router.DealerTrace.
 From Nexus Require Import Router.RealmTraceLib Router.RealmTrace Router.RealmTraceC05 Router.RealmTraceEx.
+From Nexus Require Import Router.BrokerWf.
 From Nexus Require Import Router.RealmTraceC18 Router.RealmTraceC18Att Router.RealmTraceC18Call Router.RealmTraceC18Meta.
+From Nexus Require Import Router.RealmTraceC18Obs Router.RealmTraceC18Bal Router.RealmTraceC18Step Router.RealmTraceC18Hist.
 From Coq Require Import Lia.
 
 Module AttEx.
@@ -73,3 +86,95 @@ Module AttEx.
     eexists. vm_compute. reflexivity.
   Qed.
 End AttEx.
+
+(** a decidable form of the observer's passivity *)
+Definition zpassive_b (z : N) (e : event) : bool :=
+  negb (match end_of e with Some x => x =? z | None => false end) &&
+  negb (match e with EIn (OMsg x _ _) => x =? z | _ => false end).
+
+Lemma zpassive_b_ok : forall z tr, forallb (zpassive_b z) tr = true -> forall e, In e tr -> zpassive z e.
+Proof.
+  intros z tr H e Hin. rewrite forallb_forall in H. specialize (H e Hin). unfold zpassive_b in H.
+  apply andb_true_iff in H. destruct H as [A B]. split.
+  - intros E. rewrite E, N.eqb_refl in A. discriminate.
+  - intros m orc E. subst e. rewrite N.eqb_refl in B. discriminate.
+Qed.
+
+Module ObsEx.
+  Definition cfg0 : config := mkConfig false false false true true false [] None.
+  Definition pre0 : list op :=
+    [OJoin 10 true hello_all; OMsg 10 (CSubscribe 1 [] t_on_join) 0; OMsg 10 (CSubscribe 2 [] t_on_leave) 0].
+  Definition mid0 : list op :=
+    [OJoin 11 false hello_all; ODrop 11; OJoin 11 false hello_all; OJoin 12 false hello_all; OJoin 13 false hello_all;
+     OMsg 13 (CCall 1 [] "wamp.session.add_testament" [vstr "bye"; VList [vnat 7]; VDict []] []) 0;
+     OMsg 12 (CCall 1 [] "wamp.session.kill_by_authrole" [vstr "anonymous"] []) 0;
+     OMsg 12 (CGoodbye [] "wamp.close.normal") 0].
+  (* notations, not definitions: the statements below are matched syntactically *)
+  Local Notation r0 := (fst (run (init_realm cfg0) pre0)).
+  Local Notation window := (trace_from (fst (run (init_realm cfg0) pre0)) mid0).
+
+  Lemma side : c_authz cfg0 = None /\ Forall op_ok (pre0 ++ mid0) /\
+               k0 cfg0 + N.of_nat (List.length (pre0 ++ mid0)) <= max_idN /\
+               Forall (fun o => forges o = false) (pre0 ++ mid0).
+  Proof.
+    split; [reflexivity|]. split; [unfold pre0, mid0; cbn [app]; ops_ok|]. split; [apply N.leb_le; reflexivity|].
+    unfold pre0, mid0; cbn [app]; repeat (constructor; [vm_compute; reflexivity|]); constructor.
+  Qed.
+
+  Lemma observer : In 10 (att [] (trace cfg0 pre0)) /\
+                   holds_sig (r_broker r0) 10 1 t_on_join MExact /\ holds_sig (r_broker r0) 10 2 t_on_leave MExact /\
+                   (forall e, In e window -> zpassive 10 e).
+  Proof.
+    split; [vm_compute; auto|]. split; [|split].
+    - exists (mkSub 1 t_on_join "" [10]). vm_compute. auto.
+    - exists (mkSub 2 t_on_leave "" [10]). vm_compute. auto.
+    - apply zpassive_b_ok. vm_compute. reflexivity.
+  Qed.
+
+  (** what the observer reads = the attachment changes of the window; the
+      GOODBYEs of the double kill precede the victims' on_leave events *)
+  Lemma reads :
+      observed 10 1 2 window =
+        [(true, 11); (false, 11); (true, 11); (true, 12); (true, 13); (false, 11); (false, 13); (false, 12)] /\
+      sess_changes (att [] (trace cfg0 pre0)) window =
+        [(true, 11); (false, 11); (true, 11); (true, 12); (true, 13); (false, 11); (false, 13); (false, 12)] /\
+      about 11 (observed 10 1 2 window) = [true; false; true; false].
+  Proof. vm_compute. repeat split. Qed.
+End ObsEx.
+
+Module Forge.
+  Definition midF : list op :=
+    [OJoin 11 false hello_all; OMsg 11 (CPublish 1 [] t_on_leave [vid 99] []) 0;
+     OMsg 11 (CCall 2 [] "wamp.session.add_testament" [vstr t_on_leave; VList [vid 77]; VDict []] []) 0; ODrop 11].
+  Local Notation r0 := (fst (run (init_realm ObsEx.cfg0) ObsEx.pre0)).
+  Local Notation windowF := (trace_from (fst (run (init_realm ObsEx.cfg0) ObsEx.pre0)) midF).
+
+  Lemma reads : observed 10 1 2 windowF = [(true, 11); (false, 99); (false, 77); (false, 11)] /\
+                sess_changes (att [] (trace ObsEx.cfg0 ObsEx.pre0)) windowF = [(true, 11); (false, 11)] /\
+                map forges midF = [false; true; true; false].
+  Proof. vm_compute. repeat split. Qed.
+
+  Lemma passive : forall e, In e windowF -> zpassive 10 e.
+  Proof. apply zpassive_b_ok. vm_compute. reflexivity. Qed.
+
+  Lemma side : Forall op_ok (ObsEx.pre0 ++ midF) /\ k0 ObsEx.cfg0 + N.of_nat (List.length (ObsEx.pre0 ++ midF)) <= max_idN.
+  Proof. split; [unfold ObsEx.pre0, midF; cbn [app]; ops_ok|apply N.leb_le; reflexivity]. Qed.
+
+  Theorem balanced_refuted :
+      exists cfg pre mid z J L,
+        c_authz cfg = None /\ Forall op_ok (pre ++ mid) /\
+        k0 cfg + N.of_nat (List.length (pre ++ mid)) <= max_idN /\
+        In z (att [] (trace cfg pre)) /\
+        holds_sig (r_broker (fst (run (init_realm cfg) pre))) z J t_on_join MExact /\
+        holds_sig (r_broker (fst (run (init_realm cfg) pre))) z L t_on_leave MExact /\
+        (forall e, In e (trace_from (fst (run (init_realm cfg) pre)) mid) -> zpassive z e) /\
+        observed z J L (trace_from (fst (run (init_realm cfg) pre)) mid) <>
+        sess_changes (att [] (trace cfg pre)) (trace_from (fst (run (init_realm cfg) pre)) mid).
+  Proof.
+    exists ObsEx.cfg0, ObsEx.pre0, midF, 10, 1, 2.
+    destruct ObsEx.observer as (A & B & C & _). destruct side as [S1 S2]. destruct reads as (E1 & E2 & _).
+    split; [exact (eq_refl None)|]. split; [exact S1|]. split; [exact S2|].
+    split; [exact A|]. split; [exact B|]. split; [exact C|]. split; [exact passive|].
+    rewrite E1, E2. discriminate.
+  Qed.
+End Forge.
